@@ -17,6 +17,8 @@ package main
 
 import (
 	"bufio"
+	"bytes"
+	"encoding/hex"
 	"encoding/json"
 	"fmt"
 	"math"
@@ -30,6 +32,8 @@ import (
 	"sync"
 	"time"
 
+	"github.com/fxamacker/cbor/v2"
+	"go.flow.arcalot.io/pluginsdk/atp"
 	"go.flow.arcalot.io/pluginsdk/schema"
 	"harness/hx"
 )
@@ -226,6 +230,50 @@ var dsOddKeys = []func() *hx.Val{
 	func() *hx.Val { return hx.Bool(true) },
 	func() *hx.Val { return hx.Nil() },
 	func() *hx.Val { return hx.F64(math.Copysign(0, -1)) },
+}
+
+// dsCorruptHello encodes the hello message carrying the description and overwrites the first byte of
+// one occurrence of `text` (as a CBOR text string: preceded by its header) with 0xb5, which is not
+// valid UTF-8 on its own. The message keeps its length and structure.
+func dsCorruptHello(desc any, text string, pick func(n int) int) (string, bool) {
+	b, err := cbor.Marshal(atp.HelloMessage{Version: atp.ProtocolVersion, Schema: desc})
+	if err != nil || len(text) == 0 || len(text) > 23 {
+		return "", false
+	}
+	needle := append([]byte{0x60 | byte(len(text))}, []byte(text)...)
+	var at []int
+	for i := 0; i+len(needle) <= len(b); i++ {
+		if bytes.Equal(b[i:i+len(needle)], needle) {
+			at = append(at, i+1)
+		}
+	}
+	if len(at) == 0 {
+		return "", false
+	}
+	b[at[pick(len(at))]] = 0xb5
+	return hex.EncodeToString(b), true
+}
+
+// dsTextsOf lists the distinct non-empty strings (keys and values) of a description, unit names first.
+func dsTextsOf(desc *hx.Val) (unitNames []string, all []string) {
+	seenU, seenA := map[string]bool{}, map[string]bool{}
+	desc.Walk(func(x *hx.Val) {
+		if x.Kind == "s" && x.S != "" && !seenA[x.S] {
+			seenA[x.S] = true
+			all = append(all, x.S)
+		}
+		if x.Kind == "m" {
+			for _, kv := range x.M {
+				if kv[0].Kind == "s" && strings.HasPrefix(kv[0].S, "name_") && kv[1].Kind == "s" && kv[1].S != "" && !seenU[kv[1].S] {
+					seenU[kv[1].S] = true
+					unitNames = append(unitNames, kv[1].S)
+				}
+			}
+		}
+	})
+	sort.Strings(unitNames)
+	sort.Strings(all)
+	return
 }
 
 // dsSetField sets (or adds) a string-keyed entry of a map node.
@@ -449,10 +497,14 @@ func dsMetaRandom(g *hx.Gen, depth int) *hx.Val {
 
 type dsWork struct {
 	ID   int     `json:"id"`
-	Mode string  `json:"mode"` // scope | schema | hello
+	Mode string  `json:"mode"` // scope | schema | hello | hellobytes
 	V    *hx.Val `json:"v"`
-	Note string  `json:"note"`
-	Seed int64   `json:"seed"`
+	// Raw: for mode hellobytes the CBOR bytes of the hello message (hex), corrupted at the byte level;
+	// such messages have no counterpart in the model's value universe (strings there are valid
+	// Unicode), so these items are judged by the direct oracle only
+	Raw  string `json:"raw,omitempty"`
+	Note string `json:"note"`
+	Seed int64  `json:"seed"`
 }
 
 type dsUse struct {
@@ -492,6 +544,8 @@ func dsLoad(mode string, w any) (scopes map[string]schema.Type, again any, err e
 		var sc *schema.SchemaSchema
 		if mode == "hello" {
 			sc, err = dsReadSchema(w)
+		} else if mode == "hellobytes" {
+			sc, err = atp.NewClient(&dsFakeServer{r: bytes.NewReader(w.([]byte))}).ReadSchema()
 		} else {
 			sc, err = schema.UnserializeSchema(w)
 		}
@@ -555,7 +609,17 @@ func dsChild(workPath string, from int) {
 		var scopes map[string]schema.Type
 		var again any
 		load := hx.Guard(func() hx.Result {
-			s, a, err := dsLoad(w.Mode, w.V.ToGo())
+			var arg any
+			if w.Mode == "hellobytes" {
+				raw, herr := hex.DecodeString(w.Raw)
+				if herr != nil {
+					panic(herr)
+				}
+				arg = raw
+			} else {
+				arg = w.V.ToGo()
+			}
+			s, a, err := dsLoad(w.Mode, arg)
 			scopes = s
 			if err != nil {
 				if s != nil {
@@ -832,6 +896,18 @@ func dsCoverOpt(g *hx.Gen, t *dsTy, env map[string]*dsTy, onPath map[string]int,
 		v.MK, v.MVA = "string", true
 		return v
 	}
+	// a number with units given as TEXT is parsed with the units' own expression (built on first use)
+	if t.Units != nil && (t.T == "int" || t.T == "float" || t.T == "enumInt") {
+		switch choice % 3 {
+		case 0:
+			if t.T == "enumInt" && len(t.DVals) > 0 {
+				return hx.Str(t.DVals[0].Val)
+			}
+			return hx.Str("5")
+		case 1:
+			return hx.Str("3" + t.Units.Base[0])
+		}
+	}
 	// scalars and `any`: the type-directed generator (it assumes generated schemas)
 	var v *hx.Val
 	func() {
@@ -1047,6 +1123,23 @@ func dsRebuildCmd(a Args) {
 				mode = "hello"
 			}
 			mutants(mode, dv, "plugin", 10, 3)
+			// the hello message corrupted at the byte level: one text (a unit name if there is one, else
+			// any key or value) made invalid UTF-8
+			units, all := dsTextsOf(dv)
+			for k := 0; k < 3; k++ {
+				pool, what := all, "text"
+				if len(units) > 0 && k < 2 {
+					pool, what = units, "unit name"
+				}
+				if len(pool) == 0 {
+					continue
+				}
+				text := pool[g.R.Intn(len(pool))]
+				if raw, ok := dsCorruptHello(desc, text, g.R.Intn); ok {
+					work = append(work, dsWork{ID: len(work), Mode: "hellobytes", V: hx.Nil(), Raw: raw,
+						Note: fmt.Sprintf("plugin: invalid UTF-8 in %s %q of the hello message", what, text), Seed: a.Seed*1000003 + int64(len(work))})
+				}
+			}
 		default:
 			t := d.scope(false)
 			if g.R.Intn(3) == 0 {
@@ -1080,6 +1173,23 @@ func dsRebuildCmd(a Args) {
 		add([]string{"scope", "schema"}[g.R.Intn(2)], dsMetaRandom(g, 0), "random: meta field names")
 	}
 	dsWitnessesC10(add)
+	// fixed: a plugin whose step input has an integer with units; each of the unit names in turn is
+	// made invalid UTF-8 inside the CBOR hello message
+	{
+		unitsT := &dsTy{T: "int", Units: hx.BuiltinUnits["nanoseconds"]}
+		in := &dsTy{T: "scope", Root: "In", Objs: []dsNamedObj{{"In", &dsTy{T: "obj", ID: "In", Props: []dsNamedProp{
+			{"wait", &dsProp{Ty: unitsT}}, {"ratio", &dsProp{Ty: &dsTy{T: "float", Units: hx.BuiltinUnits["percentage"]}}}, {"x", &dsProp{Ty: &dsTy{T: "str"}}}}}}}}
+		out := &dsTy{T: "scope", Root: "Out", Objs: []dsNamedObj{{"Out", &dsTy{T: "obj", ID: "Out"}}}}
+		p := &dsPlugin{Steps: []dsKeyed[*dsStep]{{"s", &dsStep{ID: "s", Input: in, Outputs: []dsKeyed[*dsOutput]{{"ok", &dsOutput{Schema: out}}}}}}}
+		if desc, err := p.build().SelfSerialize(); err == nil {
+			for _, text := range []string{"ms", "nanosecond", "percent", "s", "%", "wait", "In"} {
+				if raw, ok := dsCorruptHello(desc, text, func(int) int { return 0 }); ok {
+					work = append(work, dsWork{ID: len(work), Mode: "hellobytes", V: hx.Nil(), Raw: raw,
+						Note: fmt.Sprintf("witness: invalid UTF-8 in %q of the hello message", text), Seed: a.Seed*1000003 + int64(len(work))})
+				}
+			}
+		}
+	}
 	for i, w := range dsConcurrentDescriptions(a.Seed, 30) {
 		add(w.Mode, w.V, fmt.Sprintf("patterns: description %d with distinct patterns", i))
 	}
@@ -1284,7 +1394,12 @@ func dsSupervise(s *dsSink, work []dsWork, workPath string) {
 					s.finding(dsFinding{Prop: "C09", What: "an accepted description yields a schema that cannot describe itself: " + r.Msg, Input: w.V, Detail: []string{w.Note}})
 					r = hx.Result{R: "ok", V: hx.Nil()}
 				}
-				loadCase = emitLoad(w, r)
+				if w.Mode == "hellobytes" {
+					s.count("load:hellobytes:" + r.R)
+					loadCase = 0
+				} else {
+					loadCase = emitLoad(w, r)
+				}
 				if r.R == "panic" {
 					s.finding(dsFinding{Prop: "C10", What: "loading a description panicked (" + w.Mode + "): " + r.Msg, Cases: []int{loadCase}, Input: w.V, Detail: []string{w.Note}})
 				}
@@ -1301,6 +1416,13 @@ func dsSupervise(s *dsSink, work []dsWork, workPath string) {
 				}
 				u := pending
 				pending = nil
+				if w.Mode == "hellobytes" {
+					s.count("use:hellobytes:" + l.Use.Res.R)
+					if l.Use.Res.R == "panic" {
+						s.finding(dsFinding{Prop: "C10", What: "operation " + u.Op + " on a schema returned by ReadSchema panicked: " + l.Use.Res.Msg, Schema: (*dsHxTy)(ft), Input: u.V, Detail: []string{w.Note, w.Raw}})
+					}
+					continue
+				}
 				id := s.emit(dsCase{Op: u.Op, Schema: (*dsHxTy)(ft), V: u.V, Ext: hx.MkExt(ft, u.V), Fuel: 400, Note: "use of " + w.Note}, l.Use.Res)
 				s.count("use:" + u.Op + ":" + l.Use.Res.R)
 				if l.Use.Res.R == "panic" {
@@ -1336,7 +1458,10 @@ func dsSupervise(s *dsSink, work []dsWork, workPath string) {
 		case load == nil:
 			// during load
 			r := hx.Result{R: "fuel", Msg: "child died while loading"}
-			id := emitLoad(w, r)
+			id := 0
+			if w.Mode != "hellobytes" {
+				id = emitLoad(w, r)
+			}
 			what := "loading a description crashed the process"
 			if exit3 {
 				what = "loading a description did not return within " + dsCaseTimeout.String()
@@ -1344,6 +1469,8 @@ func dsSupervise(s *dsSink, work []dsWork, workPath string) {
 				what = "loading a description overflowed the stack"
 			}
 			s.finding(dsFinding{Prop: "C10", What: what + " (" + w.Mode + ")", Cases: []int{id}, Input: w.V, Detail: []string{w.Note, dsLastLines(tail, 6)}})
+		case pending != nil && w.Mode == "hellobytes":
+			s.finding(dsFinding{Prop: "C10", What: "operation " + pending.Op + " on a schema returned by ReadSchema killed the process", Input: pending.V, Detail: []string{w.Note, dsLastLines(tail, 6)}})
 		case pending != nil:
 			id := s.emit(dsCase{Op: pending.Op, Schema: (*dsHxTy)(ft), V: pending.V, Ext: hx.MkExt(ft, pending.V), Fuel: 400, Note: "use of " + w.Note}, hx.Result{R: "fuel", Msg: "child died"})
 			switch {
